@@ -83,9 +83,9 @@ fn def(prop: &str, tier: u8) -> Option<Def> {
     Some(match prop {
         "C01" => Def {
             memcheck: mc,
-            parts: vec![("lit", fam_lit::total(prop, tier)), ("sync", fam_sync::total(prop, tier))],
+            parts: vec![("lit", fam_lit::total(prop, tier)), ("sync", fam_sync::total(prop, tier)), ("arc", arcs::total(prop, tier))],
             clauses: vec!["missing_sc", "unexpected_panic", "missing_outcome", "missed_deadlock", "loom_internal_panic", "process_died"],
-            rule: "sync part: every 2-thread x <= 2-op (thorough 3) program over a mutex, try_lock, a SeqCst atomic and join + seeded random programs over mutexes, rwlock, condvar, Notify, channel, park/unpark, join, atomics (2-4 threads); the reference machine enumerates every interleaving, every reference result (or the deadlock) must be produced. litmus part: classic shapes + every 2-thread x 2-op SeqCst program over 2 locations + every 3-thread 1-op RMW/CAS program + seeded random programs (2-4 threads, 1-3 locations, <= 8 memory events); a program is non-trivial when two threads touch a location one of them writes AND the SC reference has >= 2 outcomes; distinct = distinct program texts",
+            rule: "sync part: every 2-thread x <= 2-op (thorough 3) program over a mutex, try_lock, a SeqCst atomic and join + seeded random programs over mutexes, rwlock, condvar, Notify, channel, park/unpark, join, atomics (2-4 threads); the reference machine enumerates every interleaving, every reference result (or the deadlock) must be produced. arc part: the Arc programs of C11 (incl. one handle reached by reference from every thread), every result vector of the reference-count machine must be produced. litmus part: classic shapes + every 2-thread x 2-op SeqCst program over 2 locations + every 3-thread 1-op RMW/CAS program + seeded random programs (2-4 threads, 1-3 locations, <= 8 memory events); a program is non-trivial when two threads touch a location one of them writes AND the SC reference has >= 2 outcomes; distinct = distinct program texts",
             trusted: vec!["harness/src/rc11.rs outcomes_sc (explicit-state interleaving enumeration)", "harness/src/sync.rs reference machine", "harness/src/lit.rs and sync.rs interpreters"],
             assumptions: vec!["bounded straight-line programs only"],
             min_nontrivial: 100,
